@@ -59,22 +59,30 @@ def main(p):
         if len(segs) >= 2 and segs[-2] == 'services' and mod.__file__.endswith('__init__.py'):
             for name in sorted(vars(mod)):
                 obj = getattr(mod, name)
-                reg = getattr(type(obj), '_transport_registry', None)
-                if isinstance(obj, type) and reg is not None:
+                if not isinstance(obj, type) or not name.endswith('Client'):
+                    continue
+                is_async = name.endswith('AsyncClient')
+                gtc = getattr(obj, 'get_transport_class', None)
+                if not callable(gtc):
+                    continue
+                # which transports does the client offer?  Ask its public get_transport_class(label) for every known label
+                # (the registry attribute is an implementation detail and only used as a cross-check when present).
+                registry = {}
+                for label in ('grpc', 'grpc_asyncio', 'rest', 'rest_asyncio'):
                     try:
-                        default = obj.get_transport_class().__name__
-                    except Exception as e:
-                        default = f'!{type(e).__name__}'
-                    out['clients'].append(dict(module=m, name=name, registry={k: v.__name__ for k, v in reg.items()},
-                                               default=default, exported=name in getattr(mod, '__all__', ())))
-                elif isinstance(obj, type) and name.endswith('AsyncClient'):
-                    try:
-                        tc = obj.get_transport_class
-                        default = tc().__name__ if callable(tc) else '?'
-                    except Exception as e:
-                        default = f'!{type(e).__name__}'
-                    out['clients'].append(dict(module=m, name=name, registry=None, default=default,
-                                               exported=name in getattr(mod, '__all__', ())))
+                        registry[label] = gtc(label).__name__
+                    except Exception:
+                        pass
+                reg_attr = getattr(type(obj), '_transport_registry', None)
+                if reg_attr is not None and not is_async:
+                    for k, v in reg_attr.items():
+                        registry.setdefault(k, v.__name__)
+                try:
+                    default = gtc().__name__
+                except Exception as e:
+                    default = f'!{type(e).__name__}'
+                out['clients'].append(dict(module=m, name=name, registry=None if is_async else registry, default=default,
+                                           exported=name in getattr(mod, '__all__', ())))
     return out
 
 
